@@ -293,6 +293,24 @@ def validate(trace_path, module, cfg, wd, n_lines, tags, workers=None, timeout=3
     return res, "\n".join(outs)
 
 
+def validate_seq(trace_path, module, cfg, wd, n_lines, tag, timeout=3600):
+    """Stateful trace validation: the trace specification consumes the events in order (variable l)
+    and carries state from one event to the next.  Accepted iff TLC walked the whole trace (it
+    prints "@@END|<n>|..." when the last event was consumed and found n + 1 states)."""
+    rc, out = tlc(module + ".tla", os.path.join(SPEC, cfg), wd, workers=1, env={"TRACE": trace_path}, timeout=timeout)
+    bad = tlc_failed(rc, out)
+    st = tlc_stats(out)
+    if bad or st is None or "Error:" in out:
+        raise ToolError("trace validation %s/%s failed: %s\n%s" % (module, cfg, bad, tlc_error_text(out)))
+    ends = [rest for _, rest in prints(out, "END")]
+    if st["distinct"] != n_lines + 1 or not ends or not ends[0].startswith("%d|" % n_lines):
+        raise ToolError("trace validation %s/%s consumed %d of %d events" % (module, cfg, st["distinct"] - 1, n_lines))
+    res = {}
+    for t, ln, txt in event_prints(out, tag):
+        res[ln] = (t, txt)
+    return res, out
+
+
 # ------------------------------------------------------------------------------------------------
 # driver
 
